@@ -177,16 +177,28 @@ func (lx *Lexer) eolComment(pos int) (Token, int, bool) {
 
 func (lx *Lexer) word(pos int) (Token, int, bool) {
 	s := lx.S
-	wl := cspan(s, pos, wordStop)
-	t := clip('n', pos, wl, s)
+	// Only the first tokenCap-1 bytes of the word take part in the split test;
+	// they are looked at first so that a run such as "or`or`or`..." (one
+	// "word" up to the end of input, split after two bytes every time) costs
+	// linear time here too. Same result as scanning the whole word first.
+	head := s[pos:]
+	if len(head) > tokenCap-1 {
+		head = head[:tokenCap-1]
+	}
+	hl := cspan(head, 0, wordStop)
 	// "keyword." / "keyword`": a known non-bareword before '.' or '`' is split off
-	for i := 0; i < t.Len; i++ {
-		if t.Val[i] == '.' || t.Val[i] == '`' {
-			if c := lx.KW(t.Val[:i]); c != 0 && c != 'n' {
+	for i := 0; i < hl; i++ {
+		if head[i] == '.' || head[i] == '`' {
+			if c := lx.KW(head[:i]); c != 0 && c != 'n' {
 				return clip(c, pos, i, s), pos + i, true
 			}
 		}
 	}
+	wl := hl
+	if hl == len(head) {
+		wl = cspan(s, pos, wordStop)
+	}
+	t := clip('n', pos, wl, s)
 	if wl < tokenCap {
 		if c := lx.KW(t.Val[:wl]); c != 0 {
 			t.Cat = c
